@@ -378,6 +378,8 @@ def run(ctx, rep):
 
     c06.rule_iterloop(ctx, rep)  # lying iterators: the fill loop stores every item it takes, or panics
     rule_guard(ctx, rep)
+    balance.rule_writeback(ctx, rep)
+    rep.floor("R-WRITEBACK", 1, "OffsetArc::make_mut")
     rule_null(ctx, rep)
     # fail closed on model gaps
     for tag, F, E in ctx.each():
